@@ -789,12 +789,21 @@ func runFF(o *Opts) *Summary {
 		all := append(append([]*NNode{}, run...), f)
 		gossip(o.Steps/2, all)
 		// (4) a node with history is sent back to CatchingUp and offered tampered responses, then a valid one
-		if t%2 == 0 {
+		// (a node with history over a Badger store keeps, after the reset, the blocks
+		// and events of its previous life in the database, which the specification
+		// does not model: the anchor jumps to an old fully signed block, children of
+		// forgotten events are admitted again.  Over Badger only the fresh node resets.)
+		if t%2 == 0 && o.Store != "badger" {
 			g := run[0]
 			// In every other of these, the only reachable server is a node that fell
 			// behind: its anchor lies behind g's own last block (a reset backwards).
 			var lag *NNode
-			if t%4 == 0 && len(run) >= 3 {
+			// (not over a Badger store: the database keeps the events of before the reset
+			// and serves them again by hash and by index, so a node reset *behind its own
+			// tip* re-admits children of events its hashgraph no longer holds and forks
+			// its own chain - a situation babble does not get into by itself: only a
+			// node that is behind fast-forwards)
+			if t%4 == 0 && len(run) >= 3 && o.Store != "badger" {
 				lag = run[len(run)-1]
 				others := []*NNode{}
 				for _, nd := range all {
